@@ -20,6 +20,7 @@ Predict(op) ==
     CASE op.n = "new"       -> <<>>
       [] op.n = "fromslice" -> LET q == SelectSeq(Tl(op.a), LAMBDA x : x # -7) IN Heapify(q, CmpName(op.a[1]), Len(q) \div 2)
       [] op.n = "push"      -> Push(a, c, op.a[1])
+      [] op.n = "pushn"     -> PushAll(a, c, op.a)          \* the variadic Push sifts one value after the other
       [] op.n = "pop"       -> IF a = <<>> THEN a ELSE PopArr(a, c)
       [] op.n = "delete"    -> IF Has(a, op.a[1]) THEN DeleteArr(a, c, op.a[1]) ELSE a
       [] op.n = "clear"     -> <<>>
